@@ -53,7 +53,7 @@ CLAIMED = {
         design="4/C11"),
     "C04": dict(
         technique="MIR guard facts, expression-tree pattern matching of the payout and margin-delta formulas, sibling agreement close/liquidation, &mut State effect tracking for the prepaid-bad-debt accounting",
-        note="Decided: R04.1 close/partial-close replies succeed only with bad_debt==0 of their remain-margin result; R04.2 close reply removes the position; R04.3 margin_delta = output - open_notional (long) / reverse (short), payout = |remain_margin.margin + tmp.unrealized_pnl| to tmp.trader, whole-close record carries unrealized_pnl=0 and open_notional=position.notional; R04.4 liquidation uses the same margin_delta table; R04.5 an insurance Withdraw for a shortfall is added to prepaid_bad_debt with the same operand and mutated State is stored; R04.6 funding charged once (margin/checkpoint pairing). Not decided: numeric exactness beyond formula identity; balances.",
+        note="Decided: R04.1 close/partial-close replies succeed only with bad_debt==0 of their remain-margin result; R04.2 close reply removes the position; R04.3 margin_delta = output - open_notional (long) / reverse (short), payout = |remain_margin.margin + tmp.unrealized_pnl| to tmp.trader, whole-close record carries unrealized_pnl=0 and open_notional=position.notional; R04.4 liquidation uses the same margin_delta table; R04.5 an insurance Withdraw for a shortfall is added to prepaid_bad_debt with the same operand and mutated State is stored; R04.6 funding charged once (margin/checkpoint pairing); R04.7 every transfer of the magnitude |X| of a signed quantity is preceded by a sign test of X on its path (found F14: the reversal's pure-close branch paid out bad debt; fixed). Not decided: numeric exactness beyond formula identity; balances.",
         design="4/C04"),
     "C12": dict(
         technique="MIR path census of fee-transfer invocations per chain step keyed by the fees_paid / zero-base conditions, constant propagation of the flag through the in-flight record, operand-origin and formula matching for fee base, routing and CalcFee",
